@@ -57,6 +57,8 @@ pub enum OpKind {
     Next { out: OutId },
     PollNext { out: OutId },
     DropOut { out: OutId },
+    /// PipeStream::set_backpressure_depth() called by the consumer in the middle of the stream
+    SetDepth { out: OutId, depth: usize },
     DropObj { o: ObjId },
     OpenGate { g: GateId },
     /// wake the gate's current wakers without opening it (spurious wake)
@@ -270,6 +272,7 @@ impl Op {
             OpKind::Next { .. } => "next",
             OpKind::PollNext { .. } => "poll_next",
             OpKind::DropOut { .. } => "drop_out",
+            OpKind::SetDepth { .. } => "set_depth",
             OpKind::DropObj { .. } => "drop_obj",
             OpKind::OpenGate { .. } => "open_gate",
             OpKind::Poke { .. } => "poke",
